@@ -133,12 +133,18 @@ class FailOn:
 # ------------------------------------------------------------------ distributed pipelines (picklable by reference)
 
 
-def define_pipeline(n, shard_index=0, num_shards=1, agg='collect', fail_on=()):
-  """Source 0..n-1 sharded (shard_index, num_shards) -> +100 -> aggregate."""
+def is_odd(x):
+  return x % 2 == 1
+
+
+def define_pipeline(n, shard_index=0, num_shards=1, agg='collect', fail_on=(), prog='map'):
+  """Source 0..n-1 sharded (shard_index, num_shards) -> [filter odd ->] +100 -> aggregate."""
   from ml_metrics._src.aggregates import rolling_stats
   from ml_metrics._src.chainables import io, transform
   ds = io.SequenceDataSource(list(range(n))).shard(shard_index, num_shards)
   p = transform.TreeTransform.new(name='p').data_source(ds)
+  if prog == 'filtermap':
+    p = p.filter(is_odd)
   if fail_on:
     p = p.apply(fn=FailOn(fail_on, exc=RuntimeError, then=add100))
   else:
